@@ -8,17 +8,24 @@
 //!                                        retrying the same message while the result is an error, at most <budget> attempts in all
 //!   E:<op>,<op>,...                      environment (media driver side): L<v> set the publication limit to v (put_ordered),
 //!                                        C<p> zero partition p (set_memory)
+//!   R:<polls>:<fragment limit>           subscriber: an `Image` over the same log (hook H3 `Image::create_for_verif` when the
+//!                                        repository has it, else a copy of `Image::poll` around the real `term_reader::read`)
+//!                                        polled <polls> times; the handler reads the flags byte and the payload (one burst)
 //! S = schedule (thread granted the i-th step), K = crash points (`-` none, k = stop for ever after k granted steps).
 //!
 //! Observation (Coq term syntax):
-//!   (trace, [(Status, [attempt results]); ...], (count, [tail0; tail1; tail2], [words0; words1; words2], limit))
+//!   (trace, [(Status, [attempt results]); ...], (count, [tail0; tail1; tail2], [words0; words1; words2], limit, subscriber position),
+//!    [(tid, term offset of the frame, payload length, flags, [payload bytes]); ...]   fragments handed to the handlers, in order)
 //! trace entries: (tid, Kind, region, offset, len, val, val2, before); regions 0..2 terms, 3 log meta data, 4 counter values.
 //! `before` (the value the location held) is reported for reads and read-modify-writes only.
 use std::ffi::CString;
 use std::sync::{Arc, Mutex};
 
 use aeron_rs::concurrent::atomic_buffer::{AlignedBuffer, AtomicBuffer};
+use aeron_rs::concurrent::logbuffer::header::Header;
 use aeron_rs::concurrent::logbuffer::log_buffer_descriptor as lbd;
+use aeron_rs::concurrent::logbuffer::term_reader;
+use aeron_rs::utils::types::Index;
 use aeron_rs::concurrent::position::{ReadablePosition, UnsafeBufferPosition};
 use aeron_rs::publication::Publication;
 use aeron_rs::utils::errors::AeronError;
@@ -27,6 +34,7 @@ use vcommon::client::{TestClient, TestLog};
 use vcommon::sched::{self, Event, Region};
 
 const LIMIT_COUNTER_ID: i32 = 1;
+const SUBPOS_COUNTER_ID: i32 = 2;
 const SESSION_ID: i32 = 11;
 const STREAM_ID: i32 = 22;
 
@@ -43,6 +51,63 @@ enum EnvOp {
 enum ThreadSpec {
     Publisher { budget: usize, msgs: Vec<(i64, i32)> },
     Env { ops: Vec<EnvOp> },
+    Reader { polls: usize, limit: i32 },
+}
+
+/// The subscriber side. With hook H3 this is the repository's `Image`; without it, `Image::poll` copied verbatim
+/// (position counter, partition selection, `term_reader::read`, ordered position update).
+#[cfg(verif_h3)]
+struct Sub(aeron_rs::image::Image);
+#[cfg(verif_h3)]
+impl Sub {
+    fn new(log: &TestLog, pos: &UnsafeBufferPosition) -> Self {
+        Sub(aeron_rs::image::Image::create_for_verif(
+            SESSION_ID,
+            7,
+            8,
+            CString::new("verif").unwrap(),
+            pos,
+            log.log_buffers.clone(),
+            Box::new(|_e: AeronError| {}),
+        ))
+    }
+    fn poll(&mut self, h: &mut impl FnMut(&AtomicBuffer, Index, Index, &Header), limit: i32) -> i32 {
+        self.0.poll(h, limit)
+    }
+}
+#[cfg(not(verif_h3))]
+struct Sub {
+    term_buffers: Vec<AtomicBuffer>,
+    subscriber_position: UnsafeBufferPosition,
+    header: Header,
+    term_length_mask: Index,
+    position_bits_to_shift: i32,
+}
+#[cfg(not(verif_h3))]
+impl Sub {
+    fn new(log: &TestLog, pos: &UnsafeBufferPosition) -> Self {
+        let capacity = log.term(0).capacity();
+        Sub {
+            term_buffers: (0..3).map(|i| log.term(i)).collect(),
+            subscriber_position: pos.clone(),
+            header: Header::new(lbd::initial_term_id(&log.meta()), capacity),
+            term_length_mask: capacity - 1,
+            position_bits_to_shift: capacity.trailing_zeros() as i32,
+        }
+    }
+    fn poll(&mut self, h: &mut impl FnMut(&AtomicBuffer, Index, Index, &Header), limit: i32) -> i32 {
+        let position = self.subscriber_position.get();
+        let term_offset: Index = (position as Index) & self.term_length_mask;
+        let index = lbd::index_by_position(position, self.position_bits_to_shift);
+        assert!((0..lbd::PARTITION_COUNT).contains(&index));
+        let term_buffer = self.term_buffers[index as usize];
+        let read_outcome = term_reader::read(term_buffer, term_offset, h, limit, &mut self.header);
+        let new_position = position + (read_outcome.offset - term_offset) as i64;
+        if new_position > position {
+            self.subscriber_position.set_ordered(new_position);
+        }
+        read_outcome.fragments_read
+    }
 }
 
 struct Case {
@@ -93,6 +158,12 @@ fn parse_thread(s: &str) -> ThreadSpec {
                 })
                 .collect();
             ThreadSpec::Env { ops }
+        }
+        "R" => {
+            let mut it2 = rest.splitn(2, ':');
+            let polls: usize = it2.next().unwrap().parse().expect("bad int polls");
+            let limit: i32 = it2.next().unwrap_or("10").parse().expect("bad int limit");
+            ThreadSpec::Reader { polls, limit }
         }
         other => panic!("unknown case kind thread {}", other),
     }
@@ -182,6 +253,9 @@ fn run_case(line: &str) -> String {
     let counters = client.counter_values_buffer();
     let limit = UnsafeBufferPosition::new(counters, LIMIT_COUNTER_ID);
     limit.set(c.limit);
+    let subpos = UnsafeBufferPosition::new(counters, SUBPOS_COUNTER_ID);
+    subpos.set(c.n0 as i64 * tl as i64 + c.off0 as i64);
+    let frags: Arc<Mutex<Vec<String>>> = Arc::new(Mutex::new(Vec::new()));
 
     let term_base = log.mem.ptr() as usize;
     let regions = vec![
@@ -238,6 +312,23 @@ fn run_case(line: &str) -> String {
                     "Done".to_string()
                 }));
             }
+            ThreadSpec::Reader { polls, limit } => {
+                let sub = SendBox(Sub::new(&log, &subpos));
+                let frags = frags.clone();
+                bodies.push(Box::new(move || {
+                    let mut sub = sub;
+                    for _ in 0..polls {
+                        let mut handler = |buf: &AtomicBuffer, off: Index, len: Index, hdr: &Header| {
+                            let flags = hdr.flags();
+                            let bytes: Vec<String> = buf.as_sub_slice(off, len).iter().map(|b| b.to_string()).collect();
+                            frags.lock().unwrap().push(format!("({}, {}, {}, {}, [{}])", t, hdr.term_offset(), len, flags, bytes.join("; ")));
+                        };
+                        let n = sub.0.poll(&mut handler, limit);
+                        res.lock().unwrap().push(format!("Ok ({})", n));
+                    }
+                    "Done".to_string()
+                }));
+            }
             ThreadSpec::Env { ops } => {
                 let lim = SendBox(UnsafeBufferPosition::new(counters, LIMIT_COUNTER_ID));
                 let terms = SendBox([log.term(0), log.term(1), log.term(2)]);
@@ -277,7 +368,7 @@ fn run_case(line: &str) -> String {
         threads_obs.push(format!("({}, [{}])", status, rs.join("; ")));
     }
     let dump = format!(
-        "({}, [{}; {}; {}], [{}; {}; {}], {})",
+        "({}, [{}; {}; {}], [{}; {}; {}], {}, {})",
         log.active_term_count(),
         log.raw_tail(0),
         log.raw_tail(1),
@@ -285,9 +376,11 @@ fn run_case(line: &str) -> String {
         vcommon::sparse_words(&log.term(0)),
         vcommon::sparse_words(&log.term(1)),
         vcommon::sparse_words(&log.term(2)),
-        limit.get()
+        limit.get(),
+        subpos.get()
     );
-    format!("([{}], [{}], {})", trace.join("; "), threads_obs.join("; "), dump)
+    let fr = frags.lock().unwrap_or_else(|e| e.into_inner());
+    format!("([{}], [{}], {}, [{}])", trace.join("; "), threads_obs.join("; "), dump, fr.join("; "))
 }
 
 fn main() {
